@@ -1882,6 +1882,20 @@ fn verify_nsec(
         );
     };
 
+    // If the next domain name of the covering NSEC record is below the query name, the query name
+    // is an empty non-terminal: it exists, but owns no records (RFC 4592 section 2.2.2). The only
+    // correct response for it is a no data response, and no wildcard can match it.
+    if query.name.zone_of(covering_nsec_data.next_domain_name()) {
+        return if response_code == ResponseCode::NoError && !have_answer {
+            nsec1_yield(Proof::Secure, "query name is an empty non-terminal")
+        } else {
+            nsec1_yield(
+                Proof::Bogus,
+                "nxdomain response or answers present for an empty non-terminal",
+            )
+        };
+    }
+
     // Identify the names that exist (including names of empty non terminals) that are parents of
     // the query name. Pick the longest such name, because wildcard synthesis would start looking
     // for a wildcard record there.
